@@ -36,6 +36,38 @@ func TestC15(t *testing.T) {
 			pair.New.Normalize()
 			Ev.Probe("equal_candidates_case")
 		}
+		if rapid.IntRange(0, 5).Draw(rt, "tiecase2") == 0 {
+			// like above, but the new file sits at the path of one of the two candidates (the one with
+			// the higher index): "same path wins" and any other tie-break must agree
+			a := Bytes(rapid.Uint64().Draw(rt, "tie2A"), 2*BlockSize+rapid.IntRange(0, 1000).Draw(rt, "tie2Aextra"))
+			b := Bytes(rapid.Uint64().Draw(rt, "tie2B"), 2*BlockSize+rapid.IntRange(0, 1000).Draw(rt, "tie2Bextra"))
+			pair.Old["tie2/a.bin"], pair.Old["tie2/b.bin"] = &Entry{Kind: KFile, Data: a}, &Entry{Kind: KFile, Data: b}
+			pair.New["tie2/a.bin"] = &Entry{Kind: KFile, Data: a}
+			z := append(append(append([]byte{}, a[:BlockSize]...), []byte("fresh data in the middle")...), b[:BlockSize]...)
+			z = append(z, Bytes(rapid.Uint64().Draw(rt, "tie2Z"), BlockSize+100)...)
+			pair.New["tie2/b.bin"] = &Entry{Kind: KFile, Data: z}
+			pair.Old.Normalize()
+			pair.New.Normalize()
+			Ev.Probe("equal_candidates_one_is_same_path")
+		}
+		if rapid.IntRange(0, 29).Draw(rt, "manydups") == 0 {
+			// a signature of more than 2048 hashes made of many tiny files with few distinct contents:
+			// every block exists many times, all over the signature
+			n := rapid.IntRange(2100, 2400).Draw(rt, "nmanydups")
+			for i := 0; i < n; i++ {
+				c := []byte{byte('a' + (i*7)%5), byte('0' + (i*3)%4)}
+				pair.Old[fmt.Sprintf("dups/d%04d", i)] = &Entry{Kind: KFile, Data: c}
+				if i%9 != 0 {
+					pair.New[fmt.Sprintf("dups/d%04d", i)] = &Entry{Kind: KFile, Data: c}
+				}
+			}
+			for i := 0; i < 12; i++ {
+				pair.New[fmt.Sprintf("dups/new%02d", i)] = &Entry{Kind: KFile, Data: []byte{byte('a' + (i*7)%5), byte('0' + (i*3)%4)}}
+			}
+			pair.Old.Normalize()
+			pair.New.Normalize()
+			Ev.Probe("signature_over_2048_hashes_with_duplicate_blocks")
+		}
 		comp := GenCompression(rt)
 		dir, cleanup := RunDir()
 		defer cleanup()
